@@ -665,7 +665,16 @@ func (fc *FnCtx) bvToInt(t string, ty types.Type) string {
 	w := intWidth(ty)
 	if isUnsigned(ty) {
 		fn := fmt.Sprintf("ubv2int%d", w)
-		fc.declareOnce(fn, fmt.Sprintf("(define-fun %s ((x (_ BitVec %d))) Int (bv2nat x))", fn, w))
+		if !fc.declared[fn] {
+			// an uninterpreted function with its definition as a (lazily instantiated) axiom: as a define-fun
+			// every occurrence exposes bv2nat to the solvers' rewriters, and bv2nat(int2bv(n)) goals that a
+			// stated lemma settles at once time out
+			fc.declared[fn] = true
+			m := new(big.Int).Lsh(big.NewInt(1), uint(w))
+			fc.addPre(fmt.Sprintf("(declare-fun %s ((_ BitVec %d)) Int)", fn, w))
+			fc.addAxiom(fn, fmt.Sprintf("(assert (forall ((x (_ BitVec %d))) (! (= (%s x) (bv2nat x)) :pattern ((%s x)))))", w, fn, fn))
+			fc.addAxiom(fn, fmt.Sprintf("(assert (forall ((x (_ BitVec %d))) (! (and (<= 0 (%s x)) (< (%s x) %s)) :pattern ((%s x)))))", w, fn, fn, m.String(), fn))
+		}
 		return app(fn, t)
 	}
 	fn := fmt.Sprintf("sbv2int%d", w)
